@@ -45,6 +45,20 @@ let () =
          | "AC" -> (match next () with
              | "UV" -> let a = v3 () in Printf.printf "%s\n" (p3 (uv_constrain fops a))
              | _ -> let a = q4 () in Printf.printf "%s\n" (p4 (q_constrain fops a)))
+         | "AR" -> let t = next () in let f = nf () in
+           (match t with
+            | "SC" -> let a = nf () in let b = nf () in
+              Printf.printf "%s %s %s %s\n" (hex (a +. b)) (hex (a -. b)) (hex (f *. a)) (hex (a /. f))
+            | "UV" | "V3" -> let a = v3 () in let b = v3 () in
+              let ((ax, ay), az) = a in
+              Printf.printf "%s %s %s %s\n" (p3 (v3add fops a b)) (p3 (v3sub fops a b)) (p3 (v3scale fops f a)) (p3 ((ax /. f, ay /. f), az /. f))
+            | "Q" -> let a = q4 () in let b = q4 () in
+              let (((a0, a1), a2), a3) = a in
+              Printf.printf "%s %s %s %s\n" (p4 (qadd fops a b)) (p4 (qsub fops a b)) (p4 (qscale fops f a)) (p4 (((a0 /. f, a1 /. f), a2 /. f), a3 /. f))
+            | _ -> let n = ni () in let a = List.init n (fun _ -> nf ()) in let b = List.init n (fun _ -> nf ()) in
+              let pl l = String.concat " " (List.map hex l) in
+              Printf.printf "%s %s %s %s\n" (pl (List.map2 ( +. ) a b)) (pl (List.map2 ( -. ) a b)) (pl (List.map (fun x -> x *. f) a)) (pl (List.map (fun x -> x /. f) a)))
+         | "ERR" -> Printf.printf "%s %s\n" (hex 1.0) (hex 1.0)
          | "INN" -> (match next () with
              | "UV" | "V3" -> let a = v3 () in let b = v3 () in
                Printf.printf "%s %s\n" (hex (v3dot fops a b)) (hex (v3norm2 fops a))
@@ -138,7 +152,7 @@ let () =
            let step o = let (s', out) = pv_run fops !st [o] in st := s'; outs := List.concat out :: !outs in
            while !p < Array.length w do
              (match next () with
-              | "M" -> let pp = nf () in let c = nf () in step (PvModify (pp, c))
+              | "M" | "S" -> let pp = nf () in let c = nf () in step (PvModify (pp, c))
               | "W" -> let x = nf () in step (PvWrap x)
               | "D" -> let a = nf () in let b = nf () in step (PvDist2 (a, b))
               | "X" -> let a = nf () in let b = nf () in outs := pv_wrapped_dist2 fops !st a b :: !outs
